@@ -132,6 +132,7 @@ func init() {
 			{Name: "frames", TShards: 4, Run: c14Frames},
 			{Name: "panics", Run: c14Panics},
 			{Name: "aminoname", Run: c14AminoName},
+			{Name: "framepanics", Run: c14FramePanics},
 		},
 	})
 }
@@ -178,6 +179,24 @@ func c13Packed(c *Ctx) {
 		if !bytes.Equal(back, p) {
 			k.Input("packed", fmt.Sprintf("%x", p))
 			k.Failf("unpack-pack", "DNATo2Bit(DNAFrom2Bit(%x)) = %x", p, back)
+			return false
+		}
+		// Results belong to the caller: overwrite them (up to their capacity)
+		// and decode / pack the same values again.
+		for _, res := range [][]byte{un, back} {
+			full := res[:cap(res)]
+			for j := range full {
+				full[j] = '#'
+			}
+		}
+		if un2, w := sequtil.DNAFrom2Bit(nil, p), refUnpack(p); !bytes.Equal(un2, w) {
+			k.Input("packed", fmt.Sprintf("%x", p))
+			k.Failf("result-after-scribble", "after the caller overwrote an earlier result, DNAFrom2Bit(%x) = %q, want %q", p, un2, w)
+			return false
+		}
+		if b2 := sequtil.DNATo2Bit(nil, refUnpack(p)); !bytes.Equal(b2, p) {
+			k.Input("packed", fmt.Sprintf("%x", p))
+			k.Failf("result-after-scribble", "after the caller overwrote an earlier result, DNATo2Bit(%q) = %x, want %x", refUnpack(p), b2, p)
 			return false
 		}
 		k.Count("unpack_pack_checked", 1)
@@ -471,6 +490,23 @@ func c14Codons(c *Ctx) {
 					return
 				}
 			}
+			{
+				res := sequtil.Translate(nil, x)
+				full := res[:cap(res)]
+				for j := range full {
+					full[j] = '#'
+				}
+				fr := sequtil.TranslateReadingFrames(x)
+				for f := range fr {
+					for j := range fr[f] {
+						fr[f][j] = '#'
+					}
+				}
+				if g, w := sequtil.Translate(nil, x), refTranslate(x); !bytes.Equal(g, w) {
+					k.Failf("result-after-scribble", "after the caller overwrote earlier results, Translate(%q) = %q, want %q", x, g, w)
+					return
+				}
+			}
 			k.Count("concat_checked", 1)
 			if len(x)+len(y) >= 3 {
 				k.Nontrivial(x, y)
@@ -743,6 +779,48 @@ func c14Panics(c *Ctx) {
 		k.Count("utf8_sequences_rejected", 20000)
 		k.Nontrivial([]byte("utf8"))
 	})
+}
+
+// c14FramePanics: TranslateReadingFrames must panic exactly when some frame's
+// translated region contains a non-ACGT byte (frame i covers indices
+// i .. i+3*((len-i)/3)-1).
+func c14FramePanics(c *Ctx) {
+	idx := int64(0)
+	for n := 0; n <= 24; n++ {
+		c.Case(idx, func(k *K) {
+			r := k.Rand()
+			for pos := 0; pos < n; pos++ {
+				for _, bad := range []byte{'N', 'n', 0, 0xff, 'u', ' ', 0xc5} {
+					s := randSeq(r, []byte(dna8), n)
+					s[pos] = bad
+					covered := false
+					for f := 0; f < 3 && f <= n; f++ {
+						if pos >= f && pos < f+(n-f)/3*3 {
+							covered = true
+						}
+					}
+					p := expectPanic(func() { sequtil.TranslateReadingFrames(s) })
+					if covered && !p {
+						k.Input("seq", s)
+						k.Failf("missing-panic", "TranslateReadingFrames(%q) did not panic although index %d (%q) lies inside a translated frame", s, pos, bad)
+						return
+					}
+					if !covered && p {
+						k.Input("seq", s)
+						k.Failf("unexpected-panic", "TranslateReadingFrames(%q) panicked although index %d lies in no translated frame", s, pos)
+						return
+					}
+					if covered {
+						k.Count("frame_bad_base_panics", 1)
+					}
+					k.Evals(1)
+				}
+			}
+			k.DistinctBC(1)
+		})
+		idx++
+	}
+	c.Exhaustive("framepanics: a non-ACGT byte at every index of sequences of every length 0..24")
 }
 
 func c14AminoName(c *Ctx) {
